@@ -164,6 +164,29 @@ def gen_boundary(rng, f, count, lens=None, far=True, point=True):
                 out.append((pf(f, a, b, x), fam))
     return out[:count] if count else out
 
+def gen_exponent_sweep(rng, f, stride=1):
+    """one tie-plus-one-more-digit input per binary exponent field: the big-integer path is reached with
+    every decimal exponent (relative to its digits) it can see, so a slip at a single exponent value shows"""
+    out = []
+    F = FMT[f]
+    mb = F["mbits"]
+    for E in range(0, 2 ** F["ebits"] - 1, stride):
+        bits = (E << mb) | rng.getrandbits(mb)
+        if bits == 0:
+            continue
+        m, k = midpoint_above(f, bits)
+        d, e = dyadic_to_dec(m, k)
+        digs = str(d)
+        r = rng.random()
+        if r < 0.5:
+            out.append((pf(f, digs + rng.choice("123456789"), "", e - 1), "B-exp-sweep"))
+        elif r < 0.8:
+            out.append((pf(f, str(d * 10 - 1), "", e - 1), "B-exp-sweep-below"))
+        else:
+            p = rng.randint(0, len(digs))
+            out.append((pf(f, digs[:p].lstrip("0"), digs[p:] + "5", e + len(digs) - p), "B-exp-sweep-split"))
+    return out
+
 # ------------------------------------------------------------------ thresholds (C07)
 def gen_thresholds(rng, f):
     out = []
